@@ -37,6 +37,8 @@ pub struct PpCfg {
     pub include_via_body: bool,
     /// every fourth included file ends without a final newline (its last token then meets whatever follows the directive)
     pub file_no_final_newline: bool,
+    /// macro bodies may start with an escaped identifier
+    pub body_escaped_first: bool,
 }
 
 impl PpCfg {
@@ -61,6 +63,7 @@ impl PpCfg {
             define_via: false,
             include_via_body: false,
             file_no_final_newline: false,
+            body_escaped_first: false,
         }
     }
 }
@@ -388,6 +391,12 @@ impl<'a, 'b> G<'a, 'b> {
             let n = self.t.below(6);
             let mut b: Vec<BodyTok> = Vec::new();
             let mut used_bt = false;
+            if self.cfg.body_escaped_first && self.t.chance(1, 8) {
+                // the body starts with an escaped identifier (its backslash is no line continuation); a plain token follows
+                b.push(BodyTok::Tok(format!("\\e{}", self.uid())));
+                b.push(BodyTok::Sp);
+                b.push(BodyTok::Tok(format!("b{}", self.uid())));
+            }
             for _ in 0..n {
                 let k = self.t.weighted(&[
                     6,
